@@ -15,7 +15,7 @@ import re, sys, os
 REPO = os.environ.get("VERIF_REPO", "/repo")
 
 # ---- tiny expression parser ----------------------------------------------------------------------
-TOK = re.compile(r"\s*(?:(\d+)|([A-Za-z_][A-Za-z0-9_]*)|(>=|<=|==|[-+*/(),{}<>]))")
+TOK = re.compile(r"\s*(?:(\d+)|([A-Za-z_][A-Za-z0-9_]*)|(>=|<=|==|!=|\|\||&&|[-+*/(),{}<>!]))")
 class ParseError(Exception):
     pass
 def tokenize(s):
@@ -78,6 +78,60 @@ def parse(s):
     p = P(tokenize(s)); e = p.expr()
     if p.peek() is not None: raise ParseError(f"trailing {p.peek()}")
     return e
+
+# ---- conditions: `||`, `&&`, `!`, comparisons of arithmetic expressions, boolean atoms ----------------
+CMP = ("<", ">", "<=", ">=", "==", "!=")
+class PB(P):
+    def __init__(self, toks, boolvars): super().__init__(toks); self.boolvars = boolvars
+    def bor(self):
+        l = self.band()
+        while self.peek() == "||":
+            self.eat(); r = self.band(); l = ("or", l, r)
+        return l
+    def band(self):
+        l = self.bnot()
+        while self.peek() == "&&":
+            self.eat(); r = self.bnot(); l = ("and", l, r)
+        return l
+    def bnot(self):
+        if self.peek() == "!":
+            self.eat(); return ("not", self.bnot())
+        if self.peek() == "(":
+            # a parenthesised condition, unless what follows the closing parenthesis continues an arithmetic expression
+            save = self.i
+            try:
+                self.eat("("); e = self.bor(); self.eat(")")
+                if self.peek() not in CMP + ("+", "-", "*", "/"):
+                    return e
+            except ParseError:
+                pass
+            self.i = save
+        if self.peek() in self.boolvars:
+            return ("bvar", self.eat())
+        a = self.sum(); op = self.eat()
+        if op not in CMP: raise ParseError(f"comparison expected, got {op}")
+        b = self.sum()
+        return ("cmp", op, a, b)
+def parse_cond(s, boolvars):
+    p = PB(tokenize(s), boolvars); e = p.bor()
+    if p.peek() is not None: raise ParseError(f"trailing {p.peek()}")
+    return e
+LEANCMP = {"<": "<", ">": ">", "<=": "≤", ">=": "≥", "==": "=", "!=": "≠"}
+def lean_cond(e):
+    k = e[0]
+    if k == "or": return f"({lean_cond(e[1])} || {lean_cond(e[2])})"
+    if k == "and": return f"({lean_cond(e[1])} && {lean_cond(e[2])})"
+    if k == "not": return f"(!{lean_cond(e[1])})"
+    if k == "bvar": return e[1]
+    return f"decide ({lean(e[2])} {LEANCMP[e[1]]} {lean(e[3])})"
+def cond_vars(e, nat, boo):
+    k = e[0]
+    if k in ("or", "and"): cond_vars(e[1], nat, boo); cond_vars(e[2], nat, boo)
+    elif k == "not": cond_vars(e[1], nat, boo)
+    elif k == "bvar":
+        if e[1] not in boo: boo.append(e[1])
+    else:
+        free_vars(e[2], nat); free_vars(e[3], nat)
 FUN = {"max": "Gen.max", "min": "Gen.min", "ceil_mul": "Gen.ceilMul", "floor_mul": "Gen.floorMul"}
 def lean(e, funs=FUN):
     k = e[0]
@@ -163,6 +217,63 @@ SITES = [
     S("initFloor", "macros/src/items/init.rs", r"let __flatty_len = (::flatty::utils::floor_mul\(__flatty_bytes\.len\(\), <#self_ident<#self_args> as ::flatty::traits::FlatBase>::ALIGN\));", [(r"__flatty_bytes\.len\(\)", "n"), (r"<#self_ident<#self_args> as FlatBase>::ALIGN", "align")], ["n", "align"]),
 ]
 
+# ---- guards: (condition, error kind, error position) of the decision points -----------------------------
+# regex groups: 1 = condition, 2 = ErrorKind variant, 3 = position expression (missing for the `pos,` shorthand)
+ERR = r"(?:\s*//[^\n]*)*\s*(?:return )?(?:Some\()?(?:result = )?Err\(Error \{\s*kind: ErrorKind::(\w+),\s*pos(?:: (.*?))?,\s*\}"
+def G(name, file, cond_rx, subs, nat, boo=(), flags=re.S):
+    return dict(name=name, file=file, rx=cond_rx, subs=PATH_PREFIX + subs, nat=list(nat), boo=list(boo), flags=flags)
+GUARDS = [
+    G("gCheckAlign", "base/src/utils/mem.rs", r"if (bytes\.as_ptr\(\)\.align_offset\(T::ALIGN\) [<>=!]+ 0) \{" + ERR,
+      [(r"bytes\.as_ptr\(\)\.align_offset\(T::ALIGN\)", "misalign")], ["misalign"]),
+    G("gCheckMin", "base/src/utils/mem.rs", r"\} else if (bytes\.len\(\) [<>=!]+ T::MIN_SIZE) \{" + ERR,
+      [(r"bytes\.len\(\)", "n"), (r"T::MIN_SIZE", "tmin")], ["n", "tmin"]),
+    G("gVecValidate", "containers/src/vec.rs", r"if (this\.len\(\) [<>=!]+ this\.capacity\(\)) \{" + ERR,
+      [(r"this\.len\(\)", "len"), (r"this\.capacity\(\)", "cap"), (r"Self::DATA_OFFSET", "doff")], ["len", "cap", "doff"]),
+    G("gVecFromArray", "containers/src/vec.rs", r"if (vec\.capacity\(\) [<>=!]+ N) \{" + ERR,
+      [(r"vec\.capacity\(\)", "cap"), (r"\bN\b", "count")], ["cap", "count"]),
+    G("gStrValidate", "containers/src/string.rs", r"if (this\.len\(\) [<>=!]+ this\.capacity\(\)) \{" + ERR,
+      [(r"this\.len\(\)", "len"), (r"this\.capacity\(\)", "cap"), (r"Self::DATA_OFFSET", "doff")], ["len", "cap", "doff"]),
+    G("gFlexSlotAlign", "containers/src/flex.rs", r"if (data\.bytes\(\)\.as_ptr\(\)\.align_offset\(FlexVec::<T, L>::ALIGN\) [<>=!]+ 0) \{" + ERR,
+      [(r"data\.bytes\(\)\.as_ptr\(\)\.align_offset\(FlexVec::<T, L>::ALIGN\)", "misalign"), (r"self\.pos", "pos")], ["misalign", "pos"]),
+    G("gFlexBadOffset", "containers/src/flex.rs", r"if (!last && payload_offset [<>=!]+ next_offset) \{" + ERR,
+      [(r"payload_offset", "os"), (r"next_offset", "next"), (r"self\.pos", "pos")], ["os", "next", "pos"], ["last"]),
+    G("gFlexShort", "containers/src/flex.rs", r"if (payload_offset [<>=!]+ data\.bytes\(\)\.len\(\) \|\| \(!last && next_offset [<>=!]+ data\.bytes\(\)\.len\(\)\)) \{" + ERR,
+      [(r"data\.bytes\(\)\.len\(\)", "n"), (r"payload_offset", "os"), (r"next_offset", "next"), (r"self\.pos", "pos")], ["os", "next", "n", "pos"], ["last"]),
+    G("gFlexFillRoom", "containers/src/flex.rs", r"for item_emplacer in self\.iter \{\s*if (data\.len\(\) [<>=!]+ offset_size) \{" + ERR,
+      [(r"data\.len\(\)", "n"), (r"offset_size", "os")], ["n", "os", "pos"]),
+    G("gFlexFillSeal", "containers/src/flex.rs", r"let offset = offset_size \+ payload_size;\s*match L::from_usize\(offset\)\.and_then\(\|o\| if (o [<>=!]+ L::max_value\(\)) \{ Some\(o\) \} else \{ None \}\) \{\s*Some\(o\) => o\.emplace\(&mut \*offset_slot\)\?,\s*None => \{" + ERR,
+      [(r"L::max_value\(\)", "lmax"), (r"\bo\b", "off")], ["off", "lmax", "pos"]),
+    G("gFlexPushSeal", "containers/src/flex.rs", r"let sealed = L::from_usize\(last_offset\)\s*\.and_then\(\|o\| if (o [<>=!]+ L::max_value\(\)) \{ Some\(o\) \} else \{ None \}\)\s*\.ok_or\(Error \{\s*kind: ErrorKind::(\w+),\s*pos(?:: (.*?))?,\s*\}",
+      [(r"L::max_value\(\)", "lmax"), (r"\bo\b", "off")], ["off", "lmax", "pos"]),
+]
+EKINDS = {"InsufficientSize": ".insufficientSize", "BadAlign": ".badAlign", "InvalidEnumTag": ".invalidEnumTag", "InvalidData": ".invalidData", "Other": ".other"}
+def clean(text, subs):
+    text = re.sub(r"//[^\n]*", "", text)
+    for pat, rep in subs:
+        text = re.sub(pat, rep, text)
+    return " ".join(text.split())
+def extract_guard(g):
+    try:
+        src = open(os.path.join(REPO, g["file"])).read()
+    except OSError as e:
+        return None, f"cannot read {g['file']}: {e}"
+    m = re.search(g["rx"], src, g["flags"])
+    if not m:
+        return None, "site not found in " + g["file"]
+    cond_t, kind_t, pos_t = clean(m.group(1), g["subs"]), m.group(2), clean(m.group(3) or "pos", g["subs"])
+    if kind_t not in EKINDS:
+        return None, f"unknown error kind {kind_t}"
+    try:
+        c = parse_cond(cond_t, g["boo"]); pe = parse(pos_t)
+        nat, boo = [], []
+        cond_vars(c, nat, boo); free_vars(pe, nat)
+        extra = [v for v in nat if v not in g["nat"]] + [v for v in boo if v not in g["boo"]]
+        if extra:
+            return None, f"unexpected atoms {extra} in `{cond_t}` / `{pos_t}`"
+        return (c, kind_t, pe, cond_t, pos_t), None
+    except ParseError as ex:
+        return None, f"outside the grammar: `{cond_t}` / `{pos_t}`: {ex}"
+
 def extract(site):
     path = os.path.join(REPO, site["file"])
     try:
@@ -231,6 +342,25 @@ def main(out_path):
             lines.append(f"def {site['name']} ({ps} : Nat) : Nat := {lean(e, funs)}")
             lines.append(f"def {site['name']}_untranslatable : Bool := false")
         lines.append("")
+    lines.append("/-! ### decision points: condition, error kind and error position, as the source has them -/")
+    for g in GUARDS:
+        got, err = extract_guard(g)
+        ps = (f"({' '.join(g['boo'])} : Bool) " if g["boo"] else "") + f"({' '.join(g['nat'])} : Nat)"
+        if got is None:
+            problems.append(f"{g['name']}: {err}")
+            lines.append(f"/-- UNTRANSLATABLE: {err} -/")
+            lines.append(f"def {g['name']}_cond {ps} : Bool := false")
+            lines.append(f"def {g['name']}_kind : EKind := .other")
+            lines.append(f"def {g['name']}_pos {ps} : Nat := 0")
+            lines.append(f"def {g['name']}_untranslatable : Bool := true")
+        else:
+            c, kind_t, pe, cond_t, pos_t = got
+            lines.append(f"/-- `{g['file']}`: `if {cond_t}` → `Err({kind_t} @ {pos_t})` -/")
+            lines.append(f"def {g['name']}_cond {ps} : Bool := {lean_cond(c)}")
+            lines.append(f"def {g['name']}_kind : EKind := {EKINDS[kind_t]}")
+            lines.append(f"def {g['name']}_pos {ps} : Nat := {lean(pe)}")
+            lines.append(f"def {g['name']}_untranslatable : Bool := false")
+        lines.append("")
     rows, errs = portable_table()
     problems += errs
     NAT = {"u16": (2, False, False), "u32": (4, False, False), "u64": (8, False, False), "i16": (2, True, False), "i32": (4, True, False), "i64": (8, True, False), "f32": (4, False, True), "f64": (8, False, True)}
@@ -261,7 +391,7 @@ def main(out_path):
         open(out_path, "w").write(txt)
     for p in problems:
         print("UNTRANSLATABLE", p)
-    print(f"{len(SITES)} sites, {len(problems)} problems, {sum(1 for r in rows if 'native' in r)} portable instantiations, {sum(1 for r in rows if 'alias' in r)} aliases")
+    print(f"{len(SITES)} formula sites, {len(GUARDS)} decision points, {len(problems)} problems, {sum(1 for r in rows if 'native' in r)} portable instantiations, {sum(1 for r in rows if 'alias' in r)} aliases")
     return 0
 
 if __name__ == "__main__":
